@@ -127,6 +127,59 @@ def Endpoint.resolve (c : Ctx) : Endpoint → Endpoint
 def Span.resolve (s : Span) (c : Ctx) : R Span :=
   Span.make (some (s.start.resolve c)) (some (s.stop.resolve c)) s.step
 
+/-! ### `get_encompassing_span` / `Span.encompassing` -/
+
+/-- Python's `min(iterable)` over periods: the running minimum is replaced when `x < current` (a comparison between different
+frequencies raises). `none` for an empty iterable (the caller catches the ValueError). -/
+def minPeriods : List Period → R (Option Period)
+  | [] => pure none
+  | p :: ps => do
+    let r ← ps.foldlM (fun acc x => do if (← x.lt acc) then pure x else pure acc) p
+    pure (some r)
+
+def maxPeriods : List Period → R (Option Period)
+  | [] => pure none
+  | p :: ps => do
+    let r ← ps.foldlM (fun acc x => do if (← x.gt acc) then pure x else pure acc) p
+    pure (some r)
+
+/-- an argument of `get_encompassing_span`: an object with `start_date`/`end_date` attributes (a span, a series, a resolution
+context), or an iterable of periods possibly containing `None` -/
+inductive EncArg where
+  | attrs (startDate endDate : Option Period)
+  | seq (l : List (Option Period))
+  deriving Repr
+
+/-- `_get_period(something, attr, select)`: the attribute when there is one; otherwise `select` over the non-`None` elements,
+with every exception (empty iterable, mixed frequencies) turned into `None` -/
+def EncArg.pick (sel : List Period → R (Option Period)) (attr : EncArg → Option (Option Period)) (a : EncArg) : Option Period :=
+  match attr a with
+  | some v => v
+  | none =>
+    match a with
+    | .seq l => (match sel (l.filterMap id) with | .ok r => r | .error _ => none)
+    | .attrs _ _ => none
+
+def EncArg.startOf (a : EncArg) : Option Period :=
+  a.pick minPeriods (fun a => match a with | .attrs s _ => some s | .seq _ => none)
+def EncArg.endOf (a : EncArg) : Option Period :=
+  a.pick maxPeriods (fun a => match a with | .attrs _ e => some e | .seq _ => none)
+
+/-- `get_encompassing_span(*args)`: `None` arguments are skipped; start = min of the arguments' starts, end = max of their ends
+(either may be missing, the span then has the contextual end); returns `(Span(start, end), start, end)` -/
+def encompassing (args : List (Option EncArg)) : R (Span × Option Period × Option Period) := do
+  let as := args.filterMap id
+  let s ← minPeriods (as.filterMap EncArg.startOf)
+  let e ← maxPeriods (as.filterMap EncArg.endOf)
+  let sp ← Span.make (s.map .res) (e.map .res) 1
+  pure (sp, s, e)
+
+/-- every period an argument mentions -/
+def EncArg.periods : EncArg → List Period
+  | .attrs s e => s.toList ++ e.toList
+  | .seq l => l.filterMap id
+
+
 /-- in-place mutations as data, for op-sequence statements -/
 inductive SpanOp where
   | reverse
